@@ -208,9 +208,25 @@ def centre_coords(sc: SkyConfig, emb, extra=None, perm=None):
     return yaw.AngularCoordinates(np.deg2rad(np.array(pts)))
 
 
-def realise(sc: SkyConfig, exp, workdir, emb="equator", *, extra=None, order=None, wscale=1.0, perm=None, want=("cross", "auto", "meta", "hist", "trees")):
+def realise(sc: SkyConfig, exp, workdir, emb="equator", *, extra=None, order=None, wscale=1.0, perm=None, want=("cross", "auto", "meta", "hist", "trees"),
+            workers: int = 1, sched_seed: int = 0):
     """Run the real pipeline for one scenario.  Returns dict of observations
-    (or raises whatever the library raises)."""
+    (or raises whatever the library raises).  With workers > 1 the measuring stages
+    run on the deterministic fake multiprocessing runtime (functions, arguments and
+    results cross a pickling boundary, tasks complete in a seeded random order)."""
+    if workers > 1:
+        from . import detrt
+
+        s, outcome = detrt.run_main(lambda: _realise(sc, exp, workdir, emb, extra, order, wscale, perm, want, workers), seed=sched_seed)
+        if outcome[0] == "ok":
+            return outcome[1]
+        if outcome[0] == "raised":
+            raise outcome[1]
+        raise RuntimeError(f"deadlock: {outcome[1]}")
+    return _realise(sc, exp, workdir, emb, extra, order, wscale, perm, want, 1)
+
+
+def _realise(sc, exp, workdir, emb, extra, order, wscale, perm, want, W):
     yaw = data.import_yaw()
     dref, dunk = frames(sc, exp, emb, extra, order, wscale)
     cen = centre_coords(sc, emb, extra, perm)
@@ -228,25 +244,25 @@ def realise(sc: SkyConfig, exp, workdir, emb="equator", *, extra=None, order=Non
                             radii=[float(x) for x in cunk.get_radii().data], centers=cunk.get_centers().data.tolist())
         out["given_centers"] = cen.data.tolist()
     if "cross" in want:
-        cfs = yaw.crosscorrelate(cfg, cref, cunk, unk_rand=crnd, max_workers=1)
+        cfs = yaw.crosscorrelate(cfg, cref, cunk, unk_rand=crnd, max_workers=W)
         out["cross"] = [cf.dd.counts.get_array().tolist() for cf in cfs]          # [scale][bin][i][j]
         out["cross_dr"] = [cf.dr.counts.get_array().tolist() for cf in cfs]
         out["sw1"] = cfs[0].dd.sum_weights.sum_weights1.tolist()                   # [bin][patch]
         out["sw2"] = cfs[0].dd.sum_weights.sum_weights2.tolist()
         out["cfs"] = cfs
     if "auto" in want:
-        afs = yaw.autocorrelate(cfg, cref, cref, count_rr=False, max_workers=1)
+        afs = yaw.autocorrelate(cfg, cref, cref, count_rr=False, max_workers=W)
         out["auto"] = [cf.dd.counts.get_array().tolist() for cf in afs]
         out["auto_sw1"] = afs[0].dd.sum_weights.sum_weights1.tolist()
         out["afs"] = afs
     if "hist" in want:
-        h = yaw.HistData.from_catalog(cref, cfg, max_workers=1)
+        h = yaw.HistData.from_catalog(cref, cfg, max_workers=W)
         out["hist"] = h.data.tolist()
         out["hist_samples"] = h.samples.tolist()
     if "trees" in want:
         from yaw.catalog.trees import BinnedTrees
 
-        cref.build_trees(cfg.binning.edges, closed=cfg.binning.closed, max_workers=1)
+        cref.build_trees(cfg.binning.edges, closed=cfg.binning.closed, force=True, max_workers=W)
         out["trees"] = {int(pid): [(t.num_records, float(t.sum_weights)) for t in BinnedTrees(p).trees] for pid, p in cref.items()}
     return out
 
